@@ -4,6 +4,7 @@ CONSTANTS
   Aux <- MCAux
   NodeKinds <- MCNodeKinds
   CallSet <- MCCallSet
+  Twin <- MCTwin
   N = 2
   MaxCalls = 1
   SrcEnc = "aes"
@@ -21,9 +22,14 @@ CONSTANTS
   WithNest = FALSE
   Nest2 = FALSE
   WithStream = TRUE
-  StreamLayouts = {"none","direct","indirect"}
+  StreamLayouts = {"none","array"}
   WithDangling = FALSE
   WithNullObj = FALSE
   WithScalarObj = TRUE
   CallOps = {"ref","obj"}
+  WithTwin = FALSE
+  CFIndirect = TRUE
+  PlainIdentity = FALSE
+  KeyByNumber = FALSE
+  CryptProbeDirectOnly = FALSE
 INVARIANTS Once Repeat Terminates NoPanic ErrorsOnlyUnsupported Shape Sharing IsoInv
